@@ -586,7 +586,7 @@ func c01Check(c *mc.Ctx, k c01Case, doMem, doStreamW, doStreamR bool) {
 				// (zero-copy WriteBinary, one chunk per Malloc)
 				zsink := &EnvWriter{}
 				zw := &zcWriter{sink: zsink}
-				bwz := thrift.NewBufferWriter(zw)
+				bwz := thrift.NewBufferWriter(bxVal{zw, 1}) // (handed over as a struct value)
 				cvBufWrite(bwz, pre)
 				for _, v := range vals {
 					cvBufWrite(bwz, v)
